@@ -523,8 +523,8 @@ def _keygen(func, ignored, /, *args, **kwds):
     user_kwds.update(dict([(k,NULL) for k in names_to_ignore if k in _keys]))
     # if ignoring **kwds, then pop all not in explicitly_named
     if varkwds_to_ignore: # (keyword-only parameters are named, not varkwds)
-        [user_kwds.pop(k) for k in kwds if k not in explicitly_named \
-                                       and k not in _kwonly(func)]
+        [user_kwds.pop(k) for k in list(user_kwds) \
+                           if k not in explicitly_named and k not in _kwonly(func)]
 
     # NULL out args that are NULL'ed as kwds, and vice-versa 
 #   if crossref:
